@@ -102,7 +102,15 @@ class RemoteStub:
             self.reply(mid, ents)
         elif func == "setup_done":
             ctx.record({"k": "SETUP", "s": self.sid})
-            ctx.fault_point(self.sid, "setup_done")
+            plan = getattr(ctx.behaviour, "plan", None)
+            if plan and plan["sid"] == self.sid and plan["req"] == "setup_done":
+                ctx.record({"k": "FAULT", "s": self.sid, "kind": plan["kind"] + ("_outstanding" if plan["kind"] in ("eof", "reset") else ""), "req": "setup_done"})
+                if plan["kind"] in ("eof", "reset"):
+                    (self.eof if plan["kind"] == "eof" else self.reset)()
+                    return
+                self.reply(mid, None)
+                self.eof()
+                return
             self.reply(mid, None)
         elif func in ("step", "get_data"):
             ctx.nreq += 1
@@ -132,8 +140,12 @@ class RemoteStub:
         calls = list(rep.calls)
 
         def finish():
+            if rep.fault in ("eof", "reset"):
+                ctx.record({"k": "FAULT", "s": self.sid, "kind": rep.fault + "_outstanding", "req": p.kind})
+                (self.eof if rep.fault == "eof" else self.reset)()
+                return
             if rep.exc is not None:
-                ctx.record({"k": "XE", "s": self.sid, "req": p.kind, "exc": type(rep.exc).__name__})
+                ctx.record({"k": "FAULT", "s": self.sid, "kind": "remote_exception", "req": p.kind})
                 self.fail(mid, rep.exc)
                 return
             res = rep.value
@@ -143,6 +155,10 @@ class RemoteStub:
             else:
                 ctx.record(_de_event(self.sid, res, ctx.steptime[self.sid]))
             self.reply(mid, res)
+            if rep.fault == "eof_idle":
+                # the simulator process dies after having answered (no request outstanding)
+                ctx.record({"k": "FAULT", "s": self.sid, "kind": "eof_idle", "req": p.kind})
+                self.eof()
 
         def next_call():
             if not calls:
